@@ -87,10 +87,19 @@ def run_check(mod, pid, tier, seed, t0, update_baseline):
     failing = {g: [x for x in v if not ok(x)] for g, v in groups.items()}
     failing = {g: v for g, v in failing.items() if v}
     violations, undecided_lines, known_lines = [], [], []
+    from harness import replay as replay_mod  # noqa: F811
 
     # undecided functions (constructs outside the subset): never violations
     for fn, reasons in bundle.get("undecided", []):
         undecided_lines.append(f"UNDECIDED function={fn} reason={'; '.join(reasons)}")
+        # a function out of the verifier's reach: the bounded stand-in (search on the real code) decides for this run
+        search = bundle.get("witness")
+        if search is not None:
+            wit = search(f"undecided:{fn}", [fn], seed)
+            if wit is not None:
+                from harness import replay as _rp
+                path = _rp.write(pid, f"undecided:{fn}", wit, [fn])
+                violations.append(f"VIOLATION property={pid} replay={path}")
     # vacuity: sanity obligations must NOT be provable
     for r in res_sanity:
         if r.status == "unsat":
